@@ -236,4 +236,271 @@ theorem rt_tab3 (k rows cols : Nat) (m : List (Mat Nat)) (hs : shape3B k rows co
   rw [shape3B_iff] at hs
   exact rep_roundtrip' _ wrTab k m hs.1 (fun t ht => rt_tab rows cols t (hs.2 t ht) (h t ht))
 
+/-! ### sparse matrices and tables -/
+
+theorem keyLt_iff {V} (a b : SpE V) : keyLt a b = true ↔ a.r < b.r ∨ (a.r = b.r ∧ a.c < b.c) := by
+  simp [keyLt]
+theorem keyEq_iff {V} (a b : SpE V) : keyEq a b = true ↔ a.r = b.r ∧ a.c = b.c := by
+  simp [keyEq]
+
+theorem keyLt_trans {V} (a b c : SpE V) (h1 : keyLt a b = true) (h2 : keyLt b c = true) : keyLt a c = true := by
+  rw [keyLt_iff] at *; omega
+
+theorem keyLt_asymm {V} (a b : SpE V) (h : keyLt a b = true) : keyLt b a = false ∧ keyEq b a = false := by
+  rw [keyLt_iff] at h
+  constructor
+  · cases hh : keyLt b a with
+    | false => rfl
+    | true => rw [keyLt_iff] at hh; omega
+  · cases hh : keyEq b a with
+    | false => rfl
+    | true => rw [keyEq_iff] at hh; omega
+
+theorem keyLt_total {V} (a b : SpE V) (h1 : keyLt a b = false) (h2 : keyEq a b = false) : keyLt b a = true := by
+  rw [keyLt_iff]
+  have n1 : ¬ (a.r < b.r ∨ (a.r = b.r ∧ a.c < b.c)) := by rw [← keyLt_iff]; simp [h1]
+  have n2 : ¬ (a.r = b.r ∧ a.c = b.c) := by rw [← keyEq_iff]; simp [h2]
+  omega
+
+/-- storage order as a pairwise relation -/
+def Sorted {V} (m : SpMat V) : Prop := List.Pairwise (fun a b => keyLt a b = true) m
+
+theorem sortedB_iff {V} : ∀ (m : SpMat V), sortedB m = true ↔ Sorted m
+  | [] => by simp [sortedB, Sorted]
+  | [a] => by simp [sortedB, Sorted]
+  | a :: b :: r => by
+    have ih := sortedB_iff (b :: r)
+    simp only [sortedB, Bool.and_eq_true, ih, Sorted, List.pairwise_cons]
+    constructor
+    · rintro ⟨hab, hb, hr⟩
+      refine ⟨?_, hb, hr⟩
+      intro y hy
+      rcases List.mem_cons.mp hy with rfl | hy
+      · exact hab
+      · exact keyLt_trans a b y hab (hb y hy)
+    · rintro ⟨ha, hb, hr⟩
+      exact ⟨ha b (List.mem_cons_self), hb, hr⟩
+
+theorem insertSum_append {V} (add : V → V → V) (e : SpE V) :
+    ∀ (acc : SpMat V), (∀ x ∈ acc, keyLt x e = true) → insertSum add e acc = acc ++ [e]
+  | [], _ => rfl
+  | x :: xs, h => by
+    have hx := keyLt_asymm x e (h x (List.mem_cons_self))
+    have ih := insertSum_append add e xs (fun y hy => h y (List.mem_cons_of_mem _ hy))
+    simp [insertSum, hx.1, hx.2, ih]
+
+theorem foldl_insert_sorted {V} (add : V → V → V) :
+    ∀ (rem acc : SpMat V), Sorted (acc ++ rem) → rem.foldl (fun m e => insertSum add e m) acc = acc ++ rem
+  | [], acc, _ => by simp
+  | e :: rem, acc, h => by
+    have hp := List.pairwise_append.mp h
+    have h1 : insertSum add e acc = acc ++ [e] :=
+      insertSum_append add e acc (fun x hx => hp.2.2 x hx e (List.mem_cons_self))
+    simp only [List.foldl_cons, h1]
+    rw [foldl_insert_sorted add rem (acc ++ [e]) (by simpa [Sorted, List.append_assoc] using h)]
+    simp [List.append_assoc]
+
+/-- `setFromTriplets` of the entries of a matrix already in storage order gives the same matrix -/
+theorem fromTriplets_sorted {V} (add : V → V → V) (m : SpMat V) (h : Sorted m) : fromTriplets add m = m := by
+  simpa [fromTriplets] using foldl_insert_sorted add m [] (by simpa using h)
+
+theorem incr_length_le : ∀ (l : List Nat) (lo n : Nat), List.Pairwise (· < ·) l → (∀ x ∈ l, lo ≤ x ∧ x < n) → l.length ≤ n - lo
+  | [], _, _, _, _ => by simp
+  | x :: xs, lo, n, hp, hb => by
+    rw [List.pairwise_cons] at hp
+    have hx := hb x (List.mem_cons_self)
+    have ih := incr_length_le xs (x + 1) n hp.2 (fun y hy => ⟨hp.1 y hy, (hb y (List.mem_cons_of_mem _ hy)).2⟩)
+    simp only [List.length_cons]
+    omega
+
+theorem idx_lt {rows cols r c : Nat} (hr : r < rows) (hc : c < cols) : r * cols + c < rows * cols := by
+  have h1 : (r + 1) * cols ≤ rows * cols := Nat.mul_le_mul_right cols hr
+  have h2 : (r + 1) * cols = r * cols + cols := Nat.succ_mul r cols
+  omega
+
+theorem inRangeB_iff {V} (rows cols : Nat) (m : SpMat V) :
+    inRangeB rows cols m = true ↔ ∀ e ∈ m, e.r < rows ∧ e.c < cols := by
+  simp [inRangeB, List.all_eq_true]
+
+/-- a matrix in storage order with in-range indices stores at most rows·cols entries -/
+theorem sorted_length_le {V} (rows cols : Nat) (m : SpMat V) (hs : Sorted m) (hr : ∀ e ∈ m, e.r < rows ∧ e.c < cols) :
+    m.length ≤ rows * cols := by
+  have hp : List.Pairwise (· < ·) (m.map (fun e => e.r * cols + e.c)) := by
+    rw [List.pairwise_map]
+    refine List.Pairwise.imp_of_mem ?_ hs
+    intro a b ha hb hab
+    rw [keyLt_iff] at hab
+    have hca := (hr a ha).2
+    rcases hab with h | ⟨h1, h2⟩
+    · have h1 : (a.r + 1) * cols ≤ b.r * cols := Nat.mul_le_mul_right cols h
+      have h2 : (a.r + 1) * cols = a.r * cols + cols := Nat.succ_mul a.r cols
+      omega
+    · rw [h1]; omega
+  have := incr_length_le _ 0 (rows * cols) hp (by
+    intro x hx
+    rcases List.mem_map.mp hx with ⟨e, he, rfl⟩
+    exact ⟨Nat.zero_le _, idx_lt (hr e he).1 (hr e he).2⟩)
+  simpa using this
+
+theorem rt_triplets {V} (rdV : Rd V) (wrV : V → Tok) (rows cols : Nat) :
+    ∀ (m : List (SpE V)),
+      (∀ e ∈ m, ∀ rest, rdV (wrV e.v :: rest) = .ok e.v rest) →
+      (∀ e ∈ m, e.r < rows ∧ e.c < cols ∧ e.r < two64 ∧ e.c < two64) →
+      RoundTrips (rdTriplets rdV rows cols m.length) (fun m => m.flatMap (fun e => [printN e.r, printN e.c, wrV e.v])) m
+  | [], _, _, rest => by simp [rdTriplets]
+  | e :: m, hv, hr, rest => by
+    have he := hr e (List.mem_cons_self)
+    have ih := rt_triplets rdV wrV rows cols m (fun x hx => hv x (List.mem_cons_of_mem _ hx))
+      (fun x hx => hr x (List.mem_cons_of_mem _ hx)) rest
+    simp [rdTriplets, List.flatMap_cons, rdN_printN e.r he.2.2.1, rdN_printN e.c he.2.2.2,
+      hv e (List.mem_cons_self), he.1, he.2.1, ih]
+
+/-- generic sparse round trip: a matrix in storage order, indices in range, values that round-trip -/
+theorem rt_spgen {V} (rdV : Rd V) (wrV : V → Tok) (add : V → V → V) (rows cols : Nat) (m : SpMat V)
+    (hvalid : spValidB rows cols m = true) (hdim : rows * cols < two64)
+    (hv : ∀ e ∈ m, ∀ rest, rdV (wrV e.v :: rest) = .ok e.v rest) :
+    RoundTrips (rdSpGen rdV add rows cols) (fun m => printN m.length :: m.flatMap (fun e => [printN e.r, printN e.c, wrV e.v])) m := by
+  simp only [spValidB, Bool.and_eq_true, sortedB_iff, inRangeB_iff] at hvalid
+  obtain ⟨hs, hr⟩ := hvalid
+  have hlen := sorted_length_le rows cols m hs hr
+  have hr' : ∀ e ∈ m, e.r < rows ∧ e.c < cols ∧ e.r < two64 ∧ e.c < two64 := by
+    intro e he
+    have h := hr e he
+    have h3 := idx_lt h.1 h.2
+    have : e.c < two64 := by omega
+    have hrc : e.r ≤ e.r * cols := Nat.le_mul_of_pos_right _ (by omega)
+    exact ⟨h.1, h.2, by omega, this⟩
+  intro rest
+  have ht := rt_triplets rdV wrV rows cols m hv hr' rest
+  simp [rdSpGen, rdN_printN m.length (by omega), hlen, ht, fromTriplets_sorted add m hs]
+
+theorem rt_spmat (io : DblIO D) (p rows cols : Nat) (m : SpMat D) (hvalid : spValidB rows cols m = true)
+    (hdim : rows * cols < two64) (h : ∀ e ∈ m, RT io p e.v) : RoundTrips (rdSpMat io rows cols) (wrSpMat io p) m :=
+  rt_spgen (rdD io) (io.printD p) io.add rows cols m hvalid hdim (fun e he rest => rdD_printD io p e.v (h e he) rest)
+
+/-- a visit count survives the sparse-table reader: directly (`unsigned long v`), or through the `double` the
+    code as first read extracts it into -/
+def CountRT (io : DblIO D) (viaDouble : Bool) (n : Nat) : Prop :=
+  n < two64 ∧ (viaDouble = true → ∃ d, io.scanD (printN n) = some (d, []) ∧ io.toCount d = n)
+
+theorem rdCount_printN (io : DblIO D) (vd : Bool) (n : Nat) (h : CountRT io vd n) (rest : Stream) :
+    rdCount io vd (printN n :: rest) = .ok n rest := by
+  cases vd with
+  | false => simpa [rdCount] using rdN_printN n h.1 rest
+  | true =>
+    obtain ⟨d, h1, h2⟩ := h.2 rfl
+    simp [rdCount, rdD, h1, h2, pushBack]
+
+theorem rt_sptab (io : DblIO D) (vd : Bool) (rows cols : Nat) (m : SpMat Nat) (hvalid : spValidB rows cols m = true)
+    (hdim : rows * cols < two64) (h : ∀ e ∈ m, CountRT io vd e.v) : RoundTrips (rdSpTab io vd rows cols) wrSpTab m :=
+  rt_spgen (rdCount io vd) printN addN rows cols m hvalid hdim (fun e he rest => rdCount_printN io vd e.v (h e he) rest)
+
+theorem sp3ValidB_iff {V} (k rows cols : Nat) (m : List (SpMat V)) :
+    sp3ValidB k rows cols m = true ↔ m.length = k ∧ ∀ t ∈ m, spValidB rows cols t = true := by
+  simp [sp3ValidB, List.all_eq_true]
+
+theorem rt_spmat3 (io : DblIO D) (p k rows cols : Nat) (m : List (SpMat D)) (hvalid : sp3ValidB k rows cols m = true)
+    (hdim : rows * cols < two64) (h : ∀ t ∈ m, ∀ e ∈ t, RT io p e.v) :
+    RoundTrips (rdSpMat3 io k rows cols) (wrSpMat3 io p) m := by
+  rw [sp3ValidB_iff] at hvalid
+  exact rep_roundtrip' _ (wrSpMat io p) k m hvalid.1 (fun t ht => rt_spmat io p rows cols t (hvalid.2 t ht) hdim (h t ht))
+
+theorem rt_sptab3 (io : DblIO D) (vd : Bool) (k rows cols : Nat) (m : List (SpMat Nat)) (hvalid : sp3ValidB k rows cols m = true)
+    (hdim : rows * cols < two64) (h : ∀ t ∈ m, ∀ e ∈ t, CountRT io vd e.v) :
+    RoundTrips (rdSpTab3 io vd k rows cols) wrSpTab3 m := by
+  rw [sp3ValidB_iff] at hvalid
+  exact rep_roundtrip' _ wrSpTab k m hvalid.1 (fun t ht => rt_sptab io vd rows cols t (hvalid.2 t ht) hdim (h t ht))
+
+/-! ### round trips of every kind of object -/
+
+theorem allNat_of_validB (v : List (Mat Nat))
+    (h : v.all (fun t => t.all (fun r => r.all (fun n => decide (n < two64)))) = true) : AllMat3 (· < two64) v := by
+  intro t ht r hr n hn
+  simp only [List.all_eq_true, decide_eq_true_eq] at h
+  exact h t ht r hr n hn
+
+/-- **MDP::Experience**: every experience (any S, A, any counts below 2^64, any reward/M2 values that round-trip
+    at the dense writer's precision) is read back identically, whatever follows on the stream. -/
+theorem roundtrip_dexp (io : DblIO D) (pr : Prec) (S A : Nat) (e : DExp D) (hv : dexpValidB S A e = true)
+    (hr : AllMat (RT io pr.dense) e.rewards) (hm : AllMat (RT io pr.dense) e.m2) :
+    RoundTrips (rdDExp io S A) (wrDExp io pr) e := by
+  simp only [dexpValidB, Bool.and_eq_true, decide_eq_true_eq, beq_iff_eq] at hv
+  obtain ⟨⟨⟨⟨⟨ht, hsv⟩, hnv⟩, hsum⟩, hsr⟩, hsm⟩ := hv
+  intro rest
+  have h1 := rt_tab3 A S S e.visits hsv (allNat_of_validB _ hnv)
+  have h2 := rt_mat io pr.dense S A e.rewards hsr hr
+  have h3 := rt_mat io pr.dense S A e.m2 hsm hm
+  simp only [rdDExp, wrDExp, bind_apply, List.cons_append, List.append_assoc, rdN_printN e.timesteps ht,
+    h1 _, h2 _, h3 _, pure_apply, ← hsum]
+
+/-- **MDP::SparseExperience** -/
+theorem roundtrip_sexp (io : DblIO D) (pr : Prec) (vd : Bool) (S A : Nat) (e : SExp D) (hv : sexpValidB S A e = true)
+    (hdimS : S * S < two64) (hdimA : S * A < two64)
+    (hc : ∀ t ∈ e.visits, ∀ x ∈ t, CountRT io vd x.v)
+    (hr : ∀ x ∈ e.rewards, RT io pr.sparse x.v) (hm : ∀ x ∈ e.m2, RT io pr.sparse x.v) :
+    RoundTrips (rdSExp io vd S A) (wrSExp io pr) e := by
+  simp only [sexpValidB, Bool.and_eq_true, decide_eq_true_eq, beq_iff_eq] at hv
+  obtain ⟨⟨⟨⟨⟨ht, hsv⟩, _⟩, hsum⟩, hsr⟩, hsm⟩ := hv
+  intro rest
+  have h1 := rt_sptab3 io vd A S S e.visits hsv hdimS hc
+  have h2 := rt_spmat io pr.sparse S A e.rewards hsr hdimA hr
+  have h3 := rt_spmat io pr.sparse S A e.m2 hsm hdimA hm
+  simp only [rdSExp, wrSExp, bind_apply, List.cons_append, List.append_assoc, rdN_printN e.timesteps ht,
+    h1 _, h2 _, h3 _, pure_apply, ← hsum]
+
+/-- **MDP::Model** -/
+theorem roundtrip_dmodel (io : DblIO D) (pr : Prec) (S A : Nat) (m : DModel D) (hv : dmodelValidB io S A m = true)
+    (hd : RT io pr.scalar m.discount) (ht : AllMat3 (RT io pr.dense) m.T) (hr : AllMat (RT io pr.dense) m.R) :
+    RoundTrips (rdDModel io S A) (wrDModel io pr) m := by
+  simp only [dmodelValidB, Bool.and_eq_true] at hv
+  obtain ⟨⟨⟨hdisc, hst⟩, hprob⟩, hsr⟩ := hv
+  intro rest
+  have h1 := rt_mat3 io pr.dense A S S m.T hst ht
+  have h2 := rt_mat io pr.dense S A m.R hsr hr
+  simp only [rdDModel, wrDModel, bind_apply, List.cons_append, List.append_assoc,
+    rdD_printD io pr.scalar m.discount hd, hdisc, h1 _, h2 _, hprob, need_true, pure_apply, Bool.not_true]
+  rfl
+
+/-- **MDP::SparseModel** -/
+theorem roundtrip_smodel (io : DblIO D) (pr : Prec) (S A : Nat) (m : SModel D) (hv : smodelValidB io S A m = true)
+    (hdimS : S * S < two64) (hdimA : S * A < two64)
+    (hd : RT io pr.scalar m.discount) (ht : ∀ t ∈ m.T, ∀ x ∈ t, RT io pr.sparse x.v) (hr : ∀ x ∈ m.R, RT io pr.sparse x.v) :
+    RoundTrips (rdSModel io S A) (wrSModel io pr) m := by
+  simp only [smodelValidB, Bool.and_eq_true] at hv
+  obtain ⟨⟨⟨hdisc, hst⟩, hprob⟩, hsr⟩ := hv
+  intro rest
+  have h1 := rt_spmat3 io pr.sparse A S S m.T hst hdimS ht
+  have h2 := rt_spmat io pr.sparse S A m.R hsr hdimA hr
+  simp only [rdSModel, wrSModel, bind_apply, List.cons_append, List.append_assoc,
+    rdD_printD io pr.scalar m.discount hd, hdisc, h1 _, h2 _, hprob, need_true, pure_apply, Bool.not_true]
+  rfl
+
+/-- **POMDP::Model<M>** over any underlying model kind whose codec round-trips -/
+theorem roundtrip_pd {M} (io : DblIO D) (pr : Prec) (rdM : Rd M) (wrM : M → Stream) (vM : M → Bool) (S A O : Nat)
+    (x : M × List (Mat D)) (hv : pdValidB io vM S A O x = true) (hM : RoundTrips rdM wrM x.1)
+    (ho : AllMat3 (RT io pr.dense) x.2) : RoundTrips (rdPD io rdM S A O) (wrPD io pr wrM) x := by
+  simp only [pdValidB, Bool.and_eq_true] at hv
+  obtain ⟨⟨_, hso⟩, hprob⟩ := hv
+  intro rest
+  have h1 := rt_mat3 io pr.dense A S O x.2 hso ho
+  simp only [rdPD, wrPD, bind_apply, List.append_assoc, hM _, h1 _, hprob, need_true, pure_apply]
+
+/-- **POMDP::SparseModel<M>** -/
+theorem roundtrip_ps {M} (io : DblIO D) (pr : Prec) (rdM : Rd M) (wrM : M → Stream) (vM : M → Bool) (S A O : Nat)
+    (x : M × List (SpMat D)) (hv : psValidB io vM S A O x = true) (hdim : S * O < two64) (hM : RoundTrips rdM wrM x.1)
+    (ho : ∀ t ∈ x.2, ∀ e ∈ t, RT io pr.sparse e.v) : RoundTrips (rdPS io rdM S A O) (wrPS io pr wrM) x := by
+  simp only [psValidB, Bool.and_eq_true] at hv
+  obtain ⟨⟨_, hso⟩, hprob⟩ := hv
+  intro rest
+  have h1 := rt_spmat3 io pr.sparse A S O x.2 hso hdim ho
+  simp only [rdPS, wrPS, bind_apply, List.append_assoc, hM _, h1 _, hprob, need_true, pure_apply]
+
+/-- **MDP::Policy** -/
+theorem roundtrip_mpol (io : DblIO D) (pr : Prec) (S A : Nat) (m : Mat D) (hv : mpolValidB io S A m = true)
+    (h : AllMat (RT io pr.dense) m) : RoundTrips (rdMPol io S A) (wrMPol io pr) m := by
+  simp only [mpolValidB, Bool.and_eq_true] at hv
+  intro rest
+  have h1 := rt_mat io pr.dense S A m hv.1 h
+  simp only [rdMPol, wrMPol, bind_apply, h1 _, hv.2, need_true, pure_apply]
+
 end AITB.Codec
